@@ -450,6 +450,134 @@ fn mode_c13(cx: &mut Ctx, only_unit: Option<usize>, only_case: Option<(Vec<Fact>
     }
 }
 
+#[cfg(feature = "hooks")]
+fn virtual_clock(on: bool) { ascent::verif::set_virtual_clock(on) }
+#[cfg(feature = "hooks")]
+fn clock_readings() -> u64 { ascent::verif::virtual_clock_readings() }
+#[cfg(not(feature = "hooks"))]
+fn virtual_clock(_on: bool) { panic!("built without the verification hooks") }
+#[cfg(not(feature = "hooks"))]
+fn clock_readings() -> u64 { panic!("built without the verification hooks") }
+
+/// every row is derivable (subset of the model), every lattice value is below the final one
+fn sound_partial(u: &Unit, rels: &[Vec<Tuple>], want: &Db) -> Option<String> {
+    for &r in &u.observe {
+        match &want.rels[r] {
+            refeval::RelData::Set(s) => for t in &rels[r] { if !s.contains(t) { return Some(format!("relation {} holds {:?}, which is not in the model", u.prog.rels[r].name, t)); } },
+            refeval::RelData::Lat(m) => {
+                let ty = u.prog.rels[r].lat.as_ref().unwrap();
+                for t in &rels[r] {
+                    let (k, v) = t.split_at(t.len() - 1);
+                    match m.get(k) { None => return Some(format!("lattice {} holds key {:?}, which has no derivable value", u.prog.rels[r].name, k)),
+                        Some(fin) => if !vfn::code::leq(ty, v[0], *fin) { return Some(format!("lattice {} holds {:?}, above the final value {}", u.prog.rels[r].name, t, fin)); } }
+                }
+            }
+        }
+    }
+    None
+}
+fn equals_model(u: &Unit, rels: &[Vec<Tuple>], want: &Db) -> Option<String> {
+    for &r in &u.observe {
+        let g = as_set(&rels[r]);
+        let w: BTreeSet<Tuple> = want.rels[r].tuples().into_iter().collect();
+        if g != w { return Some(format!("relation {} = {:?}, fixed point = {:?}", u.prog.rels[r].name, g, w)); }
+    }
+    None
+}
+
+/// C14: the deadline is made to strike at every position where it can be observed (virtual clock:
+/// every reading advances by 1 ns; run_timeout(t ns) for every t in 0..=M+1)
+fn mode_c14(cx: &mut Ctx, only_unit: Option<usize>, only_case: Option<(Vec<Fact>, Vec<u64>)>) {
+    let nprogs = (0..cx.units.len()).filter(|ui| !cx.makes(*ui).is_empty()).count().max(1);
+    let per_shard: usize = if cx.thorough { 3_000_000 } else { 150_000 };
+    let budget = (per_shard / nprogs / 40).clamp(30, 4100);
+    for ui in 0..cx.units.len() {
+        let makes = cx.makes(ui);
+        if makes.is_empty() || only_unit.map_or(false, |o| o != ui) { continue; }
+        let u = cx.units[ui].clone();
+        let (vi, make) = makes[0];
+        let v = u.variants[vi].clone();
+        let uni = universe(&u);
+        let (sets, desc) = input_sets(uni.len(), 0, budget);
+        cx.rep.extra("inputs_per_program", desc);
+        cx.rep.states += 1;
+        let dump = |inst: &Box<dyn Instance>| -> Vec<Vec<Tuple>> { (0..u.prog.rels.len()).map(|r| inst.dump(v.rel_map[r])).collect() };
+        let mut run_case = |facts: &Vec<Fact>, ts: Option<&Vec<u64>>, cx: &mut Ctx| {
+            for (i, (r, t)) in facts.iter().enumerate() {
+                if u.prog.rels[*r].lat.is_some() && facts[..i].iter().any(|(r2, t2)| r2 == r && t2[..t2.len() - 1] == t[..t.len() - 1]) { return; }
+            }
+            let Ok(want) = refeval::eval(&u.prog, &db_of(&u, facts)) else { return };
+            let case_json = |ts: &[u64]| obj(vec![("input", J::Arr(facts.iter().map(|f| fact_json(&u, f)).collect())), ("timeouts_ns", J::Arr(ts.iter().map(|t| J::Int(*t as i64)).collect()))]);
+            let mut bad = |what: &str, ts: &[u64], detail: String, cx: &mut Ctx| {
+                let case = case_json(ts);
+                cx.rep.violate(format!("C14|{}|{}|{}", cx.family, u.tag, what),
+                    format!("{} run_timeout at virtual deadlines {:?} ns: {} -- input {} -- program: {}", u.tag, ts, detail, case.get("input").to_string(), variant_items(&v).join(" ")),
+                    cx.replay_json(ui, &v, case));
+            };
+            // uninterrupted run under the virtual clock: number of clock readings M
+            let full = catch(|| { let mut inst = make(); for (r, t) in facts { inst.push(v.rel_map[*r], t); } virtual_clock(true); let r = inst.run_timeout(u64::MAX - 1); let m = clock_readings(); virtual_clock(false); (r, m, dump(&inst)) });
+            cx.rep.executions += 1;
+            let m = match full {
+                Err(p) => { virtual_clock(false); bad(&format!("panic|{}", panic_sig(&p)), &[], format!("uninterrupted run panicked: {}", p), cx); return; }
+                Ok((r, m, rels)) => {
+                    if r != Some(true) { bad("uninterrupted-returned-false", &[], format!("run_timeout(huge) returned {:?}", r), cx); }
+                    if let Some(d) = equals_model(&u, &rels, &want) { bad("uninterrupted-differs", &[], d, cx); return; }
+                    m
+                }
+            };
+            // one history: run_timeout(t) for each t of `ts` (clock restarted per call), then run()
+            let mut history = |ts: &[u64], cx: &mut Ctx| {
+                cx.rep.states += 1;
+                cx.rep.evaluations += 1;
+                let res = catch(|| {
+                    let mut inst = make();
+                    for (r, t) in facts { inst.push(v.rel_map[*r], t); }
+                    let mut steps = vec![];
+                    for t in ts { virtual_clock(true); let r = inst.run_timeout(*t); virtual_clock(false); steps.push((r, dump(&inst))); }
+                    inst.run();
+                    (steps, dump(&inst))
+                });
+                cx.rep.executions += 1;
+                cx.rep.transitions += ts.len() as u64 + 1;
+                match res {
+                    Err(p) => { virtual_clock(false); bad(&format!("panic|{}", panic_sig(&p)), ts, format!("panicked: {}", p), cx); }
+                    Ok((steps, fin)) => {
+                        let mut interrupted = false;
+                        for (k, (r, rels)) in steps.iter().enumerate() {
+                            match r {
+                                Some(true) => if let Some(d) = equals_model(&u, rels, &want) { bad("returned-true-before-fixpoint", ts, format!("call #{} returned true but {}", k + 1, d), cx); },
+                                Some(false) => { interrupted = true; if let Some(d) = sound_partial(&u, rels, &want) { bad("unsound-partial-state", ts, format!("call #{} returned false and {}", k + 1, d), cx); } },
+                                None => bad("no-run_timeout", ts, "run_timeout not generated".into(), cx),
+                            }
+                        }
+                        if interrupted { cx.rep.nontrivial += 1; }
+                        if let Some(d) = equals_model(&u, &fin, &want) { bad("resumed-run-differs-from-fixpoint", ts, format!("after the resuming run() {}", d), cx); }
+                    }
+                }
+            };
+            if let Some(ts) = ts { history(ts, cx); return; }
+            for t in 0..=m + 1 {
+                history(&[t], cx);
+                // the same deadline again (repeated interruption at the same relative point)
+                history(&[t, t], cx);
+            }
+            if cx.thorough || facts.len() <= 2 {
+                for t1 in 0..=m + 1 { for t2 in 0..=m + 1 { if t1 != t2 { history(&[t1, t2], cx); } } }
+            }
+            cx.rep.add_extra("clock_readings_max", 0);
+            let cur = cx.rep.extras.get("clock_readings_max").and_then(|v| v.as_u64()).unwrap_or(0);
+            if m > cur { cx.rep.extra("clock_readings_max", m); }
+        };
+        if let Some((facts, ts)) = &only_case { run_case(facts, Some(ts), cx); continue; }
+        for s in &sets {
+            let facts: Vec<Fact> = s.iter().map(|i| uni[*i].clone()).collect();
+            run_case(&facts, None, cx);
+        }
+        cx.rep.add_extra("programs", 1);
+        if cx.rep.samples.len() < 3 { cx.rep.sample(obj(vec![("program", variant_items(&v).into()), ("inputs", sets.len().into()), ("tag", u.tag.clone().into())])); }
+    }
+}
+
 /// entry point of every generated harness binary
 pub fn main(family: &str, tier: &str, shard: usize, nshards: usize, table: &[Entry]) -> ! {
     let start = std::time::Instant::now();
@@ -484,6 +612,10 @@ pub fn main(family: &str, tier: &str, shard: usize, nshards: usize, table: &[Ent
         match mode.as_str() {
             "C01" | "C03" | "C04" => { let m = mode.clone(); mode_model(&mut cx, &m, only_unit, only_input) }
             "C05" => mode_c05(&mut cx, only_unit, only_input),
+            "C14" => {
+                let case = replay.as_ref().map(|r| (only_input.clone().unwrap_or_default(), r.get("case").get("timeouts_ns").as_array().map(|a| a.iter().map(|x| x.as_u64().unwrap()).collect()).unwrap_or_default()));
+                mode_c14(&mut cx, only_unit, case)
+            }
             "C13" => {
                 let case = replay.as_ref().map(|r| {
                     let u = &cx.units[only_unit.unwrap()];
